@@ -335,7 +335,11 @@ aggregation is absent — such a view creates no stream, consumes no cache entry
 the measure functions of the other views, and (being a match) only suppresses the default stream, which the
 compatible match suppresses anyway.  The error the SDK returns alongside is no reason to lose the valid streams: the
 instrument handed to the user carries exactly these measure functions (`resolver.Aggregators` appends them whatever
-the error).  Without any compatible match: no stream at all (part 2), never the default stream. -/
+the error).  Without any compatible match: no stream at all (part 2), never the default stream.
+`i` is ANY instrument — synchronous or observable: both families resolve their views through this one function, per
+reader (`resolver.Aggregators` / `HistogramAggregators` for the synchronous kinds, `int64ObservableInstrument` /
+`float64ObservableInstrument` for the observable kinds, which since the repair of F48 also go on after an inserter
+error), so the statement covers both. -/
 theorem invalid_views_do_not_affect_valid_ones (L : Nat) (views : List View) (j : Nat) (i : Inst) (S : List StreamSt) :
     ((∃ v ∈ views, v.matches j i = true ∧ incompatible i v.agg = false) →
       insertInstrument L views j i S = insertInstrument L (views.filter (honourable j i)) j i S) ∧
@@ -498,6 +502,13 @@ example :
       { pat := .star, kind := none, rename := none, filter := some { deny := false, keys := [1] }, agg := some .explicit }]
     (insertInstrument 0 vs 0 { float := false, kind := .counter } []).2 = [0, 1] ∧
     (vs.filter (honourable 0 { float := false, kind := .counter })).length = 2 := by decide
+/-- the same for an OBSERVABLE up-down counter (F48's witness: "i*" with last value cannot be honoured, "i3" ↦ "R0"
+can): default-named stream suppressed, the renamed stream kept -/
+example :
+    let vs : List View := [{ pat := .glob [105, 42], kind := none, rename := none, filter := some { deny := false, keys := [1] }, agg := some .last },
+      { pat := .exact 3, kind := none, rename := some (0, true), filter := some { deny := false, keys := [] }, agg := none }]
+    (insertInstrument 2 vs 3 { float := false, kind := .obsUpdown } []).2 = [0] ∧
+    incompatible { float := false, kind := .obsUpdown } (some .last) = true := by decide
 /-- L = 2, delta, three cycles: the reports total 1+2+4+8+16 = 31 although the kept set changes every cycle -/
 example : (((Agg.sum { limit := 2 }).runSteps .delta
       [.meas 5 1, .meas 7 2, .col 1, .meas 7 4, .meas 5 8, .col 2, .meas 9 16, .col 3, .meas 5 32]).2.map total) =
